@@ -409,10 +409,14 @@ def run_deny(case):
     bound = case.get('bound', BOUND)
     mode = M.MODES[meta['mode']]
     priv = mode != 0x10
-    for k in range(len(log0)):
+    placements = [(k, 0) for k in range(len(log0))]
+    # LDRD / STRD without LPAE are TWO word accesses: should an implementation perform an aligned pair as one 8-byte access (the learned list then
+    # has one entry of size 8), the pair is also placed ACROSS the boundary, first word allowed, second word denied
+    placements += [(k, 4) for k in range(len(log0)) if log0[k][1] == 8 and cls.lower().startswith(('ldrd', 'strd'))]
+    for k, straddle in placements:
         off_k, size_k, wr_k = log0[k]
         addr_k = G.DATA + off_k
-        delta = bound - addr_k
+        delta = bound - straddle - addr_k
         shifted, rn = _shift_base(core, meta, word, delta)
         if shifted is None:
             count('probe.k-skipped-no-base')
@@ -420,8 +424,8 @@ def run_deny(case):
         # re-learn with the shifted base, deny region off
         c2 = probe_clean(shifted, meta)
         ticks += 2
-        if c2 is None or len(c2['log']) != len(log0) or c2['log'][k][0] + G.DATA != bound or any(o + s > bound - G.DATA for o, s, _ in c2['log'][:k]) \
-                or any(o + G.DATA < bound for o, s, _ in c2['log'][k:]):
+        if c2 is None or len(c2['log']) != len(log0) or c2['log'][k][0] + G.DATA != bound - straddle or any(o + s > bound - G.DATA for o, s, _ in c2['log'][:k]) \
+                or any(o + G.DATA < bound - straddle for o, s, _ in c2['log'][k:]):
             count('probe.k-skipped-shift-not-uniform')
             continue
         log = c2['log']
